@@ -284,6 +284,86 @@ pub fn run() {
         rmuts.extend(corpus::mutations(src, vocab));
     }
     run_family("c:mutated-repository-programs", &rmuts, &mut fam, &mut bad, &mut classes);
+    // (g) the second entry point: the binary reads program files itself (`2a-emulator verify FILE`, the
+    // same reader serves `run`, the interactive start-up and the `load` command). It must accept exactly
+    // what the parser accepts: exit 0 for texts of the language, non-zero for everything else.
+    let mut nproc = 0u64;
+    match std::env::var("VERIF_BIN") {
+        Ok(bin) if std::path::Path::new(&bin).exists() => {
+            let dir = std::env::temp_dir().join(format!("verif-c03-{}", std::process::id()));
+            let _ = std::fs::create_dir_all(&dir);
+            let mut texts: Vec<String> = vec![];
+            texts.extend(cc.iter().cloned());
+            texts.extend(labels.iter().step_by(if quick { 9 } else { 2 }).cloned());
+            texts.extend(sentences.iter().step_by(if quick { 400 } else { 40 }).cloned());
+            texts.extend(shorts.iter().step_by(if quick { 997 } else { 97 }).cloned());
+            // file-level shapes: byte order mark, CR / CRLF line ends, no final line end, leading blank lines
+            for body in [" NOP\n", " LD R0, 5\nL:\n JR L\n", ""] {
+                for (pre, nl, fin) in [("\u{feff}", "\n", true), ("", "\r\n", true), ("", "\r", true), ("", "\n", false), ("\n", "\n", true), (" ", "\n", true), ("\u{feff}\u{feff}", "\n", true), ("\u{200b}", "\n", true)] {
+                    let mut t = format!("{}#! mrasm\n{}", pre, body).replace('\n', nl);
+                    if !fin {
+                        while t.ends_with(nl) {
+                            t.truncate(t.len() - nl.len());
+                        }
+                    }
+                    texts.push(t);
+                }
+            }
+            texts.sort();
+            texts.dedup();
+            let files: Vec<(std::path::PathBuf, &String)> = texts.iter().enumerate().map(|(i, t)| (dir.join(format!("p{}.asm", i)), t)).collect();
+            for (f, t) in &files {
+                let _ = std::fs::write(f, t.as_bytes());
+            }
+            nproc = files.len() as u64;
+            let res = mc::par_map(&files, |(f, t)| {
+                let exp_ok = matches!(mrasm::parse(t), Ok(_));
+                let out = mc::output_with_timeout(std::process::Command::new(&bin).arg("verify").arg(f), 20);
+                match out {
+                    Ok(Some(o)) => {
+                        let code = o.status.code();
+                        if code == Some(101) || code.is_none() {
+                            Some(("binary/panic".to_string(), format!("`verify` died ({:?}): {}", code, String::from_utf8_lossy(&o.stderr).lines().find(|l| l.contains("panicked")).unwrap_or("")), case_line(t)))
+                        } else if (code == Some(0)) != exp_ok {
+                            Some((
+                                if exp_ok { "binary/rejects-a-valid-program".to_string() } else { "binary/accepts-what-the-language-rejects".to_string() },
+                                format!("`2a-emulator verify` exits with {:?}; the text is {} the language", code, if exp_ok { "in" } else { "not in" }),
+                                case_line(t),
+                            ))
+                        } else {
+                            None
+                        }
+                    }
+                    Ok(None) => Some(("binary/never-returns".to_string(), "`verify` did not finish within 20 s".to_string(), case_line(t))),
+                    Err(e) => Some(("machinery/spawn".to_string(), format!("cannot run the binary: {}", e), case_line(t))),
+                }
+            });
+            for (k, w, l) in res.into_iter().flatten() {
+                let e = bad.entry(k).or_default();
+                e.0 += 1;
+                if e.1.len() < 4 {
+                    e.1.push((l, format!("[g:binary-file-reader] {}", w)));
+                }
+            }
+            // byte strings that are not UTF-8: never a program (no panic, non-zero exit)
+            for (i, bytes) in [&b"#! mrasm\n NOP \xff\n"[..], &b"\xff\xfe#! mrasm\n"[..], &b"#! mrasm\n; \xc3\n"[..], &b"\x00\x9f\x92\x96"[..]].iter().enumerate() {
+                let f = dir.join(format!("raw{}.asm", i));
+                let _ = std::fs::write(&f, bytes);
+                nproc += 1;
+                match mc::output_with_timeout(std::process::Command::new(&bin).arg("verify").arg(&f), 20) {
+                    Ok(Some(o)) if o.status.code().map(|c| c != 0 && c != 101).unwrap_or(false) => {}
+                    other => {
+                        let e = bad.entry("binary/non-utf8-file".to_string()).or_default();
+                        e.0 += 1;
+                        e.1.push((format!("src-bytes {}", mc::hex(bytes)), format!("[g:binary-file-reader] `verify` on a file that is not UTF-8: {:?}", other.map(|o| o.map(|o| o.status.code())))));
+                    }
+                }
+            }
+            let _ = std::fs::remove_dir_all(&dir);
+        }
+        _ => ctx.machinery_error("VERIF_BIN (the 2a-emulator binary built from /repo) is not available"),
+    }
+    ctx.set("binary_verify_invocations", nproc);
     for (k, (n, cases)) in &bad {
         for (l, w) in cases.iter().take(3) {
             if k.starts_with("machinery/") {
